@@ -7,8 +7,8 @@
    Random choices are inputs: every rng.shuffle / rng.choice result and every np.argsort result is
    handed to the model (`draws`, `hdraw`), so the theorems quantify over all of them.
    The per-user hold-out bodies are the GENERATED ones (Gen/C05_holdout.v). *)
-From Coq Require Import ZArith QArith List Bool PrimFloat.
-From LK Require Import Lib.SplitLib Lib.PyRound Gen.C05_holdout.
+From Coq Require Import ZArith QArith List Bool.
+From LK Require Import Lib.SplitLib Gen.C05_holdout.
 Import ListNotations.
 Open Scope Z_scope.
 
@@ -66,31 +66,39 @@ Definition sample_records (recs : list rec) (size : Z) (repeats : option Z) (dis
 
 (* ---- holdout.py (generated bodies) ----------------------------------------------------------- *)
 Inductive field := FTime | FAttr | FMissing.
-Inductive holdout :=
-| HSampleN (n : Z) | HSampleFrac (f : float) | HLastN (n : Z) (fld : field) | HLastFrac (f : float) (fld : field).
+(* F is the type of the configured fraction (binary64 floats in the case files) and `rm len f` is
+   Python's round(len * f); the theorems hold for every F and rm *)
+Inductive holdout (F : Type) :=
+| HSampleN (n : Z) | HSampleFrac (f : F) | HLastN (n : Z) (fld : field) | HLastFrac (f : F) (fld : field).
+Arguments HSampleN {F} n.
+Arguments HSampleFrac {F} f.
+Arguments HLastN {F} n fld.
+Arguments HLastFrac {F} f fld.
 Definition col_of (fld : field) (row : list rec) : option (list Z) :=
   match fld with FTime => Some (map rt row) | FAttr => Some (map ra row) | FMissing => None end.
 (* what the libraries returned for one call of the hold-out: the rng.choice draw and the argsort *)
 Definition hdraw : Type := list nat * list nat.
 Definition no_draw : hdraw := ([], []).
-Definition zero : float := 0%float.
 
-Definition run_holdout (h : holdout) (row : list rec) (d : hdraw) : hres :=
+Section Users.
+Context {F : Type} (rm : Z -> F -> option Z).
+
+Definition run_holdout (h : holdout F) (row : list rec) (d : hdraw) : hres :=
   let len := Z.of_nat (length row) in
   let ch := np_choice (fst d) in
   let srt := fun _ : list Z => snd d in
   match h with
-  | HSampleN n => SampleN_call py_round_mul ch srt n zero len None
-  | HSampleFrac f => SampleFrac_call py_round_mul ch srt 0 f len None
-  | HLastN n fld => LastN_call py_round_mul ch srt n zero len (col_of fld row)
-  | HLastFrac f fld => LastFrac_call py_round_mul ch srt 0 f len (col_of fld row)
+  | HSampleN n => SampleN_call rm ch srt n len None
+  | HSampleFrac f => SampleFrac_call rm ch srt f len None
+  | HLastN n fld => LastN_call rm ch srt n len (col_of fld row)
+  | HLastFrac f fld => LastFrac_call rm ch srt f len (col_of fld row)
   end.
 
 (* ---- users.py ------------------------------------------------------------------------------------ *)
 Definition user_row (recs : list rec) (u : Z) : list rec := filter (fun r => ru r =? u) recs.
 
 Inductive tres := TOk (t : list (Z * list rec)) | TErr (e : err).
-Fixpoint split_tests (recs : list rec) (h : holdout) (us : list Z) (ds : list hdraw) : tres :=
+Fixpoint split_tests (recs : list rec) (h : holdout F) (us : list Z) (ds : list hdraw) : tres :=
   match us with
   | [] => TOk []
   | u :: us' =>
@@ -112,7 +120,7 @@ Definition mem_pair (p : Z * Z) (l : list (Z * Z)) : bool :=
 Definition anti_join (recs : list rec) (pairs : list (Z * Z)) : list rec :=
   filter (fun r => negb (mem_pair (pair_of r) pairs)) recs.
 
-Definition make_split (recs : list rec) (h : holdout) (test_only : bool) (us : list Z) (ds : list hdraw) : option fold + err :=
+Definition make_split (recs : list rec) (h : holdout F) (test_only : bool) (us : list Z) (ds : list hdraw) : option fold + err :=
   match split_tests recs h us ds with
   | TErr e => inr e
   | TOk t =>
@@ -131,36 +139,51 @@ Fixpoint collect (l : list (option fold + err)) : result :=
   | inl (Some f) :: r => match collect r with Folds fs => Folds (f :: fs) | Err e => Err e end
   end.
 
-Definition split_sections (recs : list rec) (users : list Z) (h : holdout) (test_only : bool)
+Definition split_sections (recs : list rec) (users : list Z) (h : holdout F) (test_only : bool)
            (secs : list (list nat)) (hds : list (list hdraw)) : result :=
   collect (map (fun j => make_split recs h test_only (gather 0 users (nth j secs [])) (nth j hds []))
                (seq 0 (length secs))).
 
-Definition crossfold_users (recs : list rec) (users : list Z) (k : Z) (h : holdout) (test_only : bool)
+Definition crossfold_users (recs : list rec) (users : list Z) (k : Z) (h : holdout F) (test_only : bool)
            (perm : list nat) (hds : list (list hdraw)) : result :=
   if k <=? 0 then Err EValue
   else split_sections recs users h test_only (array_split perm (Z.to_nat k)) hds.
 
-Definition sample_users (recs : list rec) (users : list Z) (size : Z) (repeats : option Z)
-           (disjoint test_only : bool) (h : holdout) (draws : list (list nat)) (hds : list (list hdraw)) : result :=
-  let nu := Z.of_nat (length users) in
+(* the test users (positions in data.users.ids()) of each pair sample_users produces, branch by branch;
+   None: numpy raised ValueError *)
+Fixpoint all_some {A} (l : list (option A)) : option (list A) :=
+  match l with
+  | [] => Some []
+  | None :: _ => None
+  | Some x :: r => match all_some r with Some xs => Some (x :: xs) | None => None end
+  end.
+Definition user_fallback (nu size : Z) (repeats : option Z) (disjoint : bool) : bool :=
+  match repeats with Some reps => disjoint && (nu <=? reps * size) | None => false end.
+Definition user_sections (nu size : Z) (repeats : option Z) (disjoint : bool) (draws : list (list nat)) : option (list (list nat)) :=
   match repeats with
   | Some reps =>
-      if disjoint && (nu <=? reps * size) then
-        crossfold_users recs users reps h false (nth 0 draws []) hds   (* fallback: rng forwarded, test_only not *)
-      else if disjoint then
-        split_sections recs users h test_only (slices (nth 0 draws []) size reps) hds
-      else
-        collect (map (fun i => match np_choice (nth i draws []) nu size with
-                               | None => inl None
-                               | Some p => make_split recs h test_only (gather 0 users p) (nth i hds [])
-                               end) (seq 0 (Z.to_nat reps)))
-  | None =>
-      match np_choice (nth 0 draws []) nu size with                    (* rng.choice(users, size) *)
-      | None => Err EValue
-      | Some p => collect [make_split recs h false (gather 0 users p) (nth 0 hds [])]
-      end
+      if disjoint && (nu <=? reps * size) then                       (* crossfold_users(data, repeats, method, rng=rng) *)
+        if reps <=? 0 then None else Some (array_split (nth 0 draws []) (Z.to_nat reps))
+      else if disjoint then Some (slices (nth 0 draws []) size reps) (* shuffle, unums[i*size:(i+1)*size] *)
+      else all_some (map (fun i => np_choice (nth i draws []) nu size) (seq 0 (Z.to_nat reps)))
+  | None => option_map (fun p => [p]) (np_choice (nth 0 draws []) nu size)   (* rng.choice(users, size) *)
   end.
+(* test_only is forwarded only by the two sampling branches *)
+Definition user_test_only (nu size : Z) (repeats : option Z) (disjoint test_only : bool) : bool :=
+  match repeats with
+  | Some _ => if user_fallback nu size repeats disjoint then false else test_only
+  | None => false
+  end.
+
+Definition sample_users (recs : list rec) (users : list Z) (size : Z) (repeats : option Z)
+           (disjoint test_only : bool) (h : holdout F) (draws : list (list nat)) (hds : list (list hdraw)) : result :=
+  let nu := Z.of_nat (length users) in
+  match user_sections nu size repeats disjoint draws with
+  | None => Err EValue
+  | Some secs => split_sections recs users h (user_test_only nu size repeats disjoint test_only) secs hds
+  end.
+
+End Users.
 
 (* ---- temporal.py and filter_interactions(min_time, max_time) --------------------------------------- *)
 Open Scope Q_scope.
@@ -253,12 +276,12 @@ Definition agree_rows (r : option (list rec)) (code : nat) (rows : list rec) : b
   end.
 
 (* checks that what the libraries returned satisfies the contracts the theorems assume *)
+Fixpoint adj_sorted_b (col : list Z) (l : list nat) : bool :=
+  match l with
+  | a :: ((b :: _) as r) => (nth a col 0 <=? nth b col 0) && adj_sorted_b col r
+  | _ => true
+  end.
 Definition argsort_ok_b (col : list Z) (ordered : list nat) : bool :=
-  is_perm_b (length col) ordered &&
-  (fix sorted (l : list nat) : bool :=
-     match l with
-     | a :: ((b :: _) as r) => (nth a col 0 <=? nth b col 0) && sorted r
-     | _ => true
-     end) ordered.
+  is_perm_b (length col) ordered && adj_sorted_b col ordered.
 Definition choice_ok_b (len : nat) (n : Z) (draw : list nat) : bool :=
   valid_idx_b len draw && (Z.of_nat (length draw) =? n).
